@@ -36,27 +36,46 @@ Orders == IF duty \notin ListTypes \/ WrongTyped # {} \/ Keys = {} THEN {<<>>}
 TCall == l = 2 /\ (\E p \in Orders : Call(p)) /\ Silent
 
 TNoCheck == pc = "attcheck" /\ ~NeedCheck(ord) /\ AttCheck /\ Silent
-TResolve == /\ IsEvent("Resolve") /\ pc = "attcheck" /\ NeedCheck(ord) /\ AttCheck
-            /\ Ev.call = Len(calls') /\ Ev.t = now
+TResolve == /\ IsEvent("Resolve")
+            /\ CASE pc = "attcheck" /\ NeedCheck(ord) -> AttCheck /\ CheckInv("Clock", Ev.call = Len(calls') /\ Ev.t = now)
+                 [] pc \in {"attcheck", "list", "prop", "exit", "ret", "done"} -> InvFail("ResolutionNotCalledFor")
+                 [] OTHER -> FALSE
 
 \* the validator index an attestation is submitted with: its own (100+id), the one of the node's duty (200+id), none
 VI(k) == CASE vidx[k] = "own" -> 100 + k [] vidx[k] = "duty" -> 200 + k [] OTHER -> 0
+\* Mismatches are recorded under a name (CheckInv / InvFail of TraceCommon) so that the verdict says what went wrong; the
+\* names are hints, the verdict itself is "the trace cannot be consumed".
+Last(s) == s[Len(s)]
+SubmitOK == LET c == Last(calls') IN
+  /\ CheckInv("Endpoint", Ev.api = c.api)
+  /\ CheckInv("ExactlyTheObjectsHandedIn", Ev.objs = c.objs /\ Len(Ev.eq) = Len(c.objs) /\ \A i \in DOMAIN c.objs : Ev.eq[i])
+  /\ CheckInv("ValidatorIndex", Len(Ev.vi) = Len(c.objs) /\ \A i \in DOMAIN c.objs : Ev.vi[i] = VI(c.objs[i]))
+  /\ CheckInv("Clock", Ev.call = Len(calls') /\ Ev.t = now)
+ExitPick == {k \in todo : set[k].kind = "exit" /\ Len(Ev.objs) = 1 /\ Ev.objs[1] = k}
 TSubmit == /\ IsEvent("Submit")
-           /\ SubmitList \/ SubmitProp \/ (\E k \in todo : set[k].kind = "exit" /\ ExitStep(k))
-           /\ LET c == calls'[Len(calls')] IN
-              /\ Ev.call = Len(calls') /\ Ev.api = c.api /\ Ev.objs = c.objs /\ Ev.t = now
-              /\ Len(Ev.vi) = Len(c.objs) /\ Len(Ev.eq) = Len(c.objs)
-              /\ \A i \in DOMAIN c.objs : Ev.eq[i] /\ Ev.vi[i] = VI(c.objs[i])
+           /\ CASE pc \in {"ret", "done"} -> InvFail("UnexpectedSubmission")
+                [] pc = "attcheck" /\ NeedCheck(ord) -> InvFail("ResolutionSkipped")
+                [] pc = "list" -> SubmitList /\ SubmitOK
+                [] pc = "prop" -> SubmitProp /\ SubmitOK
+                [] pc = "exit" /\ todo # {} -> IF ExitPick = {} THEN InvFail("ExitSubmission")
+                                              ELSE \E k \in ExitPick : ExitStep(k) /\ SubmitOK
+                [] OTHER -> FALSE
 TExitAbort == pc = "exit" /\ (\E k \in todo : set[k].kind # "exit" /\ ExitStep(k)) /\ Silent
 TExitDone == ExitDone /\ Silent
 
-TRet == /\ IsEvent("Ret") /\ Return
-        /\ Ev.err = ret.kind /\ Ev.call = ret.call /\ (ret.kind = "own" => Ev.text = ret.text)
-        /\ Ev.dep = (duty = "builder_proposer")
-        /\ Ev.t0 = at /\ Ev.t1 = now
-        /\ Len(Ev.instr) = Len(instr')
-        /\ \A i \in DOMAIN instr' : /\ Ev.instr[i].label = instr'[i].label /\ Ev.instr[i].ms = instr'[i].ms
-                                    /\ Ev.instr[i].cnt = 1 /\ Ev.instr[i].total = 1
+TRet == /\ IsEvent("Ret")
+        /\ CASE pc \in {"list", "prop"} \/ (pc = "exit" /\ todo # {} /\ \A k \in todo : set[k].kind = "exit") ->
+                  InvFail("MissingSubmission")
+             [] pc = "ret" ->
+                  /\ Return
+                  /\ CheckInv("Result", /\ Ev.err = ret.kind /\ Ev.call = ret.call /\ (ret.kind = "own" => Ev.text = ret.text)
+                                         /\ Ev.dep = (duty = "builder_proposer"))
+                  /\ CheckInv("Clock", Ev.t0 = at /\ Ev.t1 = now)
+                  /\ CheckInv("InstrumentIffSuccess", Len(Ev.instr) = Len(instr'))
+                  /\ CheckInv("Delay", \A i \in DOMAIN instr' :
+                                         /\ Ev.instr[i].label = instr'[i].label /\ Ev.instr[i].ms = instr'[i].ms
+                                         /\ Ev.instr[i].cnt = 1 /\ Ev.instr[i].total = 1)
+             [] OTHER -> FALSE
 
 TEnd == IsEvent("End") /\ pc = "done" /\ UNCHANGED vars
 TraceNext == TReset \/ TCall \/ TNoCheck \/ TResolve \/ TSubmit \/ TExitAbort \/ TExitDone \/ TRet \/ TEnd
